@@ -29,7 +29,7 @@ def main(chk):
     chk.assumptions += ['0 < dt <= S (documented S >= dt), exact-real runs: S <= 8 dt (keeps the set of rounded ratios finite), all values finite; bit-precise search: 1e-9 <= dt <= S <= 1e6',
                         '"K within one of T/S+1" is read as |K - (T/S + 1)| < 2: the mesh is saved at the start of an iteration, so the state reached at t >= T is never written and the literal reading fails by up to dt/S for every non-commensurable ratio']
     chk.bounds = {'history (exact real)': '%d iterations' % kreal, 'history (bit-precise)': '%d iterations' % kfp, 'cbmc limit per obligation': '%ds' % (120 if quick else 300),
-                  'outside': 'file contents, pairing of cell/face files on disk, CSV shape and values, statistics cadence, populations changing during the run'}
+                  'statistics cadence': 'real solver::run on one static cell, every iteration count 1..%d' % (60 if quick else 160), 'outside': 'file contents, pairing of cell/face files on disk, CSV shape and values, populations changing during the run'}
 
     # ---- translator validation -----------------------------------------------------------------------
     ev = []
@@ -154,12 +154,80 @@ def main(chk):
         else:
             # an IEEE proof is not required for the claim (the law is proved in exact reals); unknown = no counterexample within the time limit
             chk.ob(nm, st, False, dt_)
+    stats_part(chk, ir, native, quick)
     native.close()
     chk.queries += z.queries
     chk.finish(level='other', explanation=(
         'save_mesh (file number = floor(t/S)+1) and the integrator\'s time advance are executed from the IR for k iterations with symbolic dt and S. Exact reals: every feasible numbering sequence is '
         'enumerated (z3 decides feasibility with to_int) and must start at 1, never decrease, have no gap and end within two of T/S+1; simulated time is proved to be j*dt. IEEE doubles: cbmc searches, per path, '
         'for a first number != 1, a decrease or a gap; counterexamples are replayed on the native build with the real mesh writer.'))
+
+def stats_part(chk, ir, native, quick):
+    """statistics cadence: the real solver::run() (constructor, main loop, final record) on one static cell with the duration T symbolic; every
+    feasible iteration count N in the range is a path (z3 decides which T give which N). Claim per path: the statistics writer is called
+    for the iterations 0, 50, 100, ... < N and for N (the state at the end), each once, in this order."""
+    from fractions import Fraction
+    dt = 2.0 ** -10
+    nmax = 60 if quick else 160
+    step = 10
+    ranges = [(a, min(a + step, nmax)) for a in range(0, nmax, step)]
+    def work(i):
+        lo, hi = ranges[i]
+        ev = []
+        ov = {}; ov.update(envstubs.fs_stubs()); ov.update(envstubs.writer_stubs(ev))
+        def setup(it): it.strict_undef = False
+        z = SV.Z3Ctx()
+        T = S.var('T')
+        pre = [S.cmp('gt', T, S.const(Fraction(dt) * lo)), S.cmp('le', T, S.const(Fraction(dt) * hi))]
+        sess = api.Session(ir, mode='real', overrides=ov, setup=setup)
+        out = {'obs': [], 'bad': [], 'fail': [], 'paths': 0, 'functions': [], 'seen': []}
+        def run_path(c):
+            del ev[:]
+            r = sess.run('h_c19_stats', [dt, 16 * dt, T], [], pathctl=c)
+            r.stats_events = [e[1] for e in ev if e[0] == 'stats_write']
+            return r
+        ctl = SV.PathController(z, 5000, 400)
+        ctl.assumptions = list(pre)
+        res = ctl.explore(run_path)
+        out['paths'] = ctl.paths_done; out['functions'] = sorted(sess.functions_called); out['queries'] = z.queries; out['solver_s'] = z.solver_time
+        if not ctl.exhausted: out['fail'].append('statistics cadence T in (%d dt, %d dt]: path budget exhausted' % (lo, hi))
+        for (tr, pc, r) in res:
+            st = getattr(r, 'status', None)
+            if st == 'pathend': continue
+            if st != 'ok' or type(r.iout[0]) is not int:
+                out['fail'].append('statistics cadence: path ended with %s %r' % (st, getattr(r, 'error', None))); continue
+            stw, m = SV.satisfiable(z, pc, 5000)
+            if stw == 'unsat': continue
+            N = r.iout[0]
+            got = [int(x) if type(x) is int else None for x in r.stats_events]
+            want = [k for k in range(0, N, 50)] + [N]
+            out['seen'].append(N)
+            ok = got == want
+            out['obs'].append(('statistics cadence/run of %d iterations/records for the iterations %r (every 50th and the last)' % (N, want), 'proved' if ok else 'violated', {'recorded': got}))
+            if not ok:
+                out['bad'].append({'N': N, 'T': float(Fraction(m['T'])) if m and 'T' in m else dt * N, 'recorded': got, 'expected': want})
+        return out
+    outs = par.pmap(work, len(ranges), procs=12)
+    seen = []
+    for o in outs:
+        chk.paths += o['paths']; chk.queries += o.get('queries', 0); chk.solver_s += o.get('solver_s', 0); chk.functions |= set(o['functions'])
+        for m_ in o['fail']: chk.fail_closed.append(m_)
+        seen += o['seen']
+        for (name, status, detail) in o['obs']: chk.ob(name, status, True, 0, detail)
+        for b in o['bad'][:1]:
+            q = native.call('h_c19_stats', [dt, 16 * dt, b['T']], [])
+            rows = q['i'][1:] if q.get('status') == 0 else None
+            Nn = q['i'][0] if q.get('status') == 0 and q['i'] else None
+            wantn = ([k for k in range(0, Nn, 50)] + [Nn]) if Nn is not None else None
+            rep = {'dt': dt, 'duration': b['T'], 'irsym': b, 'native iterations': Nn, 'native statistics rows (iteration numbers)': rows, 'expected': wantn,
+                   'how': 'harness h_c19_stats (/verif/harness/h_num.cpp), native build: real solver::run with the in-memory statistics writer, rows parsed from get_simulation_statistics()'}
+            if rows is not None and rows != wantn:
+                chk.violation('C19/statistics/records are not "every 50th iteration and the last"', 'run of %d iterations: statistics recorded for iterations %r, expected %r; native rows %r' % (b['N'], b['recorded'], b['expected'], rows), rep)
+            else:
+                chk.fail_closed.append('statistics cadence: irsym run of %d iterations records %r, native rows %r' % (b['N'], b['recorded'], rows))
+    missing = [n for n in range(1, nmax + 1) if n not in seen]
+    if missing: chk.fail_closed.append('statistics cadence: iteration counts %r were not reached by any path' % (missing[:10],))
+    chk.witnesses += len(seen)
 
 def replay(native, din, k):
     q = native.call('h_c19_numbering', din, [k])
